@@ -75,7 +75,7 @@ def run_c_client(v, behs, ev):
             name = c[1] if len(c) > 1 and isinstance(c[1], str) else ""
             if name not in slots:
                 slots[name] = len(slots)
-                base[name] = 4099 * slots[name]
+                base[name] = (997 * slots[name]) % 60000
             rounds = [1, 0] if (fkind == "null" and fk == i + 1) else [0]
             for nr in rounds:
                 arm = 1 if (fkind == "cbfail" and fk == i + 1) else 0
@@ -126,6 +126,8 @@ def run_c_client(v, behs, ev):
         def viol(kind, call="?", **extra):
             v.violation(dict(check="c-client", kind=kind, call=call, fault=b["fault"]["kind"]),
                         dict(engine="cdriver", behaviour=b, result=res[:60], **extra))
+        if rc == 2:
+            raise ToolError(f"C client: driver error (not the library): {err}")
         if rc != 0 or "END" not in res:
             # the C program died (segfault, abort) or hung: which call is the one after the last reported
             nxt = plan[len(rlines)][2][0] if len(rlines) < len(plan) else "extract"
@@ -178,7 +180,7 @@ def run_c_client(v, behs, ev):
             slots.setdefault(name, len(slots))
         want = {}
         for n in files:
-            off = 4099 * slots[n]
+            off = (997 * slots[n]) % 60000
             want[real_name(n).encode().hex()] = content[off:off + fed.get(n, 0)]
 
         def viol(kind, **extra):
